@@ -120,7 +120,7 @@ func init() {
 
 // ---- history obligations (H_hist) ----
 
-const nHistOps = 19
+const nHistOps = 22
 
 var coreOps = []int{0, 1, 2, 3, 4, 5, 8, 15, 16, 18} // SafeString UnsafeString SafeRune UnsafeRune SafeByte UnsafeByte Write PrintStr PrintfStr PrintRedactable
 var strOps = []int{0, 1, 15, 17}
@@ -140,6 +140,23 @@ func histObligs(tier string, panicViol bool) []Oblig {
 		add(0, a)
 		for _, b := range emptyOps {
 			add(0, a, b)
+		}
+	}
+	// a 63-byte write ending in a symbolic byte, then a 2-byte write that makes
+	// the storage grow: a rune or marker split across the two writes
+	for _, a := range []int{8, 1, 0, 9} {
+		for _, b := range []int{8, 1, 0, 9} {
+			if (a == 0) != (b == 0) {
+				continue
+			}
+			obs = append(obs, Oblig{Harness: "H_hist2", Args: []int{1063, a, 2, b}, PanicViol: panicViol})
+		}
+	}
+	// an unsafe payload ending in a line feed (template ".sn"), then safe text that starts with a marker
+	for _, a := range []int{1, 7, 8, 15} {
+		for _, b := range []int{0, 6, 17} {
+			obs = append(obs, Oblig{Harness: "H_hist2", Args: []int{111, a, 108, b}, PanicViol: panicViol})
+			obs = append(obs, Oblig{Harness: "H_hist2", Args: []int{110, a, 104, b}, PanicViol: panicViol})
 		}
 	}
 	// an empty payload first, then a non-empty write of either side
@@ -277,6 +294,16 @@ func init() {
 			}
 			obs = append(obs, joinObligs(true)...)
 			obs = append(obs, c11pObligs(tier)...)
+			// zero padding beyond the 68-byte scratch buffers, with sign / prefix flags
+			for _, k := range []int{3, 5} {
+				for mask := 16; mask < 32; mask++ {
+					for _, w := range []int{5, 7} {
+						for _, v := range []int{0, 1, 3} {
+							obs = append(obs, Oblig{Harness: "H_c04w", Args: []int{k, mask, w, 0, v, 0}, PanicViol: true})
+						}
+					}
+				}
+			}
 			for _, o := range fmtbytesObligs(tier) {
 				o.PanicViol = true
 				obs = append(obs, o)
@@ -308,7 +335,7 @@ func init() {
 
 // ---- printer-level tables ----
 
-const nFmtKinds = 59 // fmt-compatible value kinds of h_values.go
+const nFmtKinds = 61 // fmt-compatible value kinds of h_values.go
 const nDirectives = 54
 
 // kinds whose rendering depends on the string leaf
@@ -419,7 +446,7 @@ func init() {
 	})
 }
 
-var c02RedactKinds = []int{103, 104, 105, 106, 110, 111, 112, 113, 114, 115, 119}
+var c02RedactKinds = []int{103, 104, 105, 106, 110, 111, 112, 113, 114, 115, 119, 121, 122, 123}
 
 func hasPrecision(d int) bool {
 	switch d {
@@ -428,6 +455,9 @@ func hasPrecision(d int) bool {
 	}
 	return false
 }
+
+// %v %+v %s and the padded forms %-8q| %8s|-like entries of the directive table
+var c02TemplateDirs = []int{0, 1, 3, 28, 17, 18}
 
 func c02Obligs(tier string) []Oblig {
 	var obs []Oblig
@@ -475,7 +505,7 @@ func c02Obligs(tier string) []Oblig {
 	}
 	// secrets with concrete markers / truncated sequences around the symbolic bytes
 	for _, k := range []int{0, 1, 12, 14, 19, 24, 25, 27, 31, 103} {
-		for _, d := range []int{0, 1, 3} {
+		for _, d := range c02TemplateDirs {
 			for t := 0; t < 6; t++ {
 				obs = append(obs, Oblig{Harness: "H_c02", Args: []int{k, d, 2, 100 + t}})
 			}
@@ -536,7 +566,7 @@ func init() {
 	})
 }
 
-var redactKinds = []int{100, 101, 102, 103, 104, 105, 106, 107, 108, 109, 110, 111, 112, 113, 114, 115, 116, 117, 118, 119}
+var redactKinds = []int{100, 101, 102, 103, 104, 105, 106, 107, 108, 109, 110, 111, 112, 113, 114, 115, 116, 117, 118, 119, 121, 122, 123}
 
 func valsObligs(tier string) []Oblig {
 	var obs []Oblig
@@ -692,6 +722,12 @@ func c13Obligs(tier string) []Oblig {
 					}
 				}
 			}
+		}
+	}
+	// raw bytes, a mode switch, nothing written since
+	for which := 0; which < 3; which++ {
+		for n := 1; n <= 3; n++ {
+			obs = append(obs, Oblig{Harness: "H_c13", Args: []int{4, which, 0, n}})
 		}
 	}
 	// large buffers: 200 bytes of safe text, then pending unsafe payloads around the accessor
@@ -1009,6 +1045,8 @@ func c16Obligs(tier string) []Oblig {
 				obs = append(obs, Oblig{Harness: "H_c16", Args: []int{k1, k2, 1, pf, 0}})
 			}
 		}
+		// the last operand is a caller-made redactable ending in an arbitrary byte
+		obs = append(obs, Oblig{Harness: "H_c16", Args: []int{k1, 120, 1, 0, 0}})
 		obs = append(obs, Oblig{Harness: "H_c16", Args: []int{k1, 0, 1, 0, 1}}, Oblig{Harness: "H_c16", Args: []int{k1, 0, 1, 1, 2}})
 		for d := 0; d < 10; d++ {
 			obs = append(obs, Oblig{Harness: "H_c16d", Args: []int{k1, d, 1}})
@@ -1036,7 +1074,7 @@ func c16Obligs(tier string) []Oblig {
 
 func c17Obligs(tier string) []Oblig {
 	var obs []Oblig
-	for ek := 0; ek < 7; ek++ {
+	for ek := 0; ek < 9; ek++ {
 		for pos := 0; pos < 9; pos++ {
 			for hook := 0; hook < 2; hook++ {
 				dirs := []int{0, 2}
@@ -1080,7 +1118,7 @@ var nestCodes = []int{1, 2, 12, 21, 11, 22, 121, 212, 112, 221, 122, 211}
 // dirtyPreludes: c12History index + 1 of the earlier calls run before a
 // check's own call on an adversarial pool: nested printers under Safe /
 // Unsafe, panics out of nested printers (single and double), nested wrappers.
-var dirtyPreludes = []int{13, 14, 5, 6, 17, 18, 20, 22}
+var dirtyPreludes = []int{13, 14, 5, 6, 17, 18, 20, 22, 27, 28}
 
 func c06Obligs(tier string) []Oblig {
 	var obs []Oblig
@@ -1143,6 +1181,20 @@ func c05Obligs(tier string) []Oblig {
 			}
 		}
 	}
+	// pre-redactable fields under wrappers; io.WriteString from a SafeFormatter
+	for _, l1 := range []int{17, 18, 19} {
+		for _, l2 := range []int{0, 2} {
+			for _, shape := range []int{0, 1, 2, 4} {
+				for _, fi := range []int{0, 3} {
+					if shape != 0 && fi != 0 {
+						continue
+					}
+					obs = append(obs, Oblig{Harness: "H_c05", Args: []int{l1, l2, 1, shape, fi, n, 0}})
+					obs = append(obs, Oblig{Harness: "H_c05", Args: []int{l2, l1, 0, shape, fi, n, 0}})
+				}
+			}
+		}
+	}
 	// %p of a pointer whose type is a SafeValue
 	for _, fi := range []int{5, 6, 7} {
 		for _, l2 := range []int{0, 2} {
@@ -1183,15 +1235,15 @@ func c05Obligs(tier string) []Oblig {
 
 func c12Obligs(tier string) []Oblig {
 	var obs []Oblig
-	for probe := 0; probe < 13; probe++ {
-		for h := 0; h < 26; h++ {
+	for probe := 0; probe < 15; probe++ {
+		for h := 0; h < 30; h++ {
 			if h == 14 && tier != "thorough" {
 				continue
 			}
 			obs = append(obs, Oblig{Harness: "H_c12", Args: []int{probe, 1, h}, PoolMode: 1})
 		}
 		if tier == "thorough" {
-			for h1 := 0; h1 < 26; h1++ {
+			for h1 := 0; h1 < 30; h1++ {
 				if h1 == 14 {
 					continue
 				}
@@ -1224,7 +1276,7 @@ func init() {
 		map[string]interface{}{"operand_kinds": "12 (22 thorough) x 3", "extra_routes": "%w with an error operand outside HelperForErrorf; empty format with operands; StringWithoutMarkers", "routes": "Sprint/Fprint/StringBuilder/Sprintfn/SafeFormat and the printf twins, empty and non-empty outer buffers", "writers": "succeeding, failing, short", "leaf": "1 arbitrary symbolic byte"},
 		nil, stubs, []string{"longer leaves", "Print*-to-stdout variants"})
 	simpleSpec("C17", c17Obligs, []string{"hook-dispatched"},
-		map[string]interface{}{"error_kinds": 7, "positions": 13, "verbs": 9, "configurations": "no hook (compared with the standard library) / hook / panicking hook; hook installed after the error type was first printed", "same_call_predecessors": "nil-receiver Stringer, panicking Stringer, Safe(), nil-pointer Formatter before the error operand", "error_text": "1 symbolic byte"},
+		map[string]interface{}{"error_kinds": 9, "positions": 13, "verbs": 9, "configurations": "no hook (compared with the standard library) / hook / panicking hook; hook installed after the error type was first printed", "same_call_predecessors": "nil-receiver Stringer, panicking Stringer, Safe(), nil-pointer Formatter before the error operand", "error_text": "1 symbolic byte"},
 		nil, stubs, []string{"deeper nesting than 2"})
 	simpleSpec("C06", c06Obligs, []string{"symbolic-under-unsafe", "script-under-unsafe"},
 		map[string]interface{}{"wrapper_nestings": "all 12 up to depth 3", "value_kinds": 23, "directives": 10, "scripts": "1-2 calls from 11 (formatter discovering the SafePrinter, and SafeFormatter; incl. redact.Fprint/Fprintf onto the printer)", "leaf": "1 symbolic valid-UTF-8 non-LF byte"},
